@@ -481,7 +481,7 @@ func ruleKWFlags(p *Prog, r *Result) {
 		found := false
 		for _, b := range fc.Blocks {
 			ret := retOf(b)
-			if ret == nil || len(ret.Results) == 0 || isNilConst(ret.Results[len(ret.Results)-1]) {
+			if ret == nil || len(ret.Results) == 0 || isNilConst(retVal(ret, len(ret.Results)-1)) {
 				continue
 			}
 			atoms := dominatingAtoms(b)
